@@ -250,12 +250,26 @@ func Module(vs []Variant) string {
 		return sl[i] < sl[j]
 	})
 	var b strings.Builder
+	// LLVM 14 reads target and source_filename definitions in a prologue: the ones of ALL
+	// variants go before every other entity (module asm included).
+	isPrologue := func(l string) bool {
+		return strings.HasPrefix(l, "target ") || strings.HasPrefix(l, "source_filename")
+	}
+	for _, v := range vs {
+		for _, t := range v.Frag.Top {
+			if isPrologue(t) {
+				b.WriteString(t + "\n")
+			}
+		}
+	}
 	for _, l := range sl {
 		b.WriteString(l + "\n")
 	}
 	for _, v := range vs {
 		for _, t := range v.Frag.Top {
-			b.WriteString(t + "\n")
+			if !isPrologue(t) {
+				b.WriteString(t + "\n")
+			}
 		}
 	}
 	for _, v := range vs {
